@@ -271,8 +271,8 @@ structure WF (a0 b : Config) (sc : Scripts) : Prop where
   bIntfs : (b.intfs.map (·.name)).Nodup
   aBinds : ∀ i ∈ a0.intfs, (i.binds.map (·.dir)).Nodup ∧ ∀ bd ∈ i.binds, isDir bd.dir = true ∧ a0.hasAcl bd.acl = true
   bBinds : ∀ i ∈ b.intfs, (i.binds.map (·.dir)).Nodup ∧ ∀ bd ∈ i.binds, isDir bd.dir = true ∧ b.hasAcl bd.acl = true
-  pairs : ∀ aN bN, a0.hasAcl aN = true → b.hasAcl bN = true →
-    pairOK (a0.lines aN) (b.lines bN) (lookupD sc.acl (aN, bN)) = true
+  pairs : ∀ ai ∈ a0.intfs, ∀ bi ∈ b.intfs, ai.name = bi.name → ∀ ba ∈ ai.binds, ∀ bb ∈ bi.binds, ba.dir = bb.dir →
+    pairOK (a0.lines ba.acl) (b.lines bb.acl) (lookupD sc.acl (ba.acl, bb.acl)) = true
   appendB : ∀ bN, b.hasAcl bN = true → appendOKFrom [] (b.lines bN) = true
   aRoutes : (a0.routes.map (·.text)).Nodup
   bRoutes : (b.routes.map (·.text)).Nodup
@@ -439,16 +439,17 @@ theorem F2_end_to_end (a0 b : Config) (sc : Scripts) (hw : WF a0 b sc) (hok : (e
   rw [← he, ← hd0] at hsem0
   rw [← he] at hacts
   -- static facts
+  have hsubI : ∀ i ∈ a'.intfs, i ∈ a0.intfs := fun i hi => by rw [hpI] at hi; exact (List.mem_filter.mp hi).1
   have hwfe : WFE e := by
     constructor
-    · intro aN bN h1 h2
-      rw [hea, hhas] at h1; rw [heb] at h2
+    · intro aN bN _ _ hcmp
+      obtain ⟨ai, hai, bi, hbi, hn, ba, hba, bb, hbb, hd, rfl, rfl⟩ := hcmp
+      rw [hea] at hai; rw [heb] at hbi
       rw [hea, heb, hesc, hlines]
-      exact hw.pairs aN bN h1 h2
+      exact hw.pairs ai (hsubI ai hai) bi hbi hn ba hba bb hbb hd
     · intro bN h1
       rw [heb] at h1 ⊢
       exact hw.appendB bN h1
-  have hsubI : ∀ i ∈ a'.intfs, i ∈ a0.intfs := fun i hi => by rw [hpI] at hi; exact (List.mem_filter.mp hi).1
   have haNames' : (a'.intfs.map (·.name)).Nodup := by rw [hpI]; exact nodup_filter_map _ _ _ hw.aIntfs
   have hbindsA : ∀ ai ∈ a'.intfs, BindsA e d0 ai.name ai.binds := by
     intro ai hai
@@ -732,8 +733,12 @@ theorem WF_of_wfB {a0 b : Config} {sc : Scripts} (h : wfB a0 b sc = true) : WF a
   · intro i hi
     obtain ⟨k1, k2⟩ := h5 i hi
     exact ⟨k1, fun bd hbd => k2 bd hbd⟩
-  · intro aN bN ha hb
-    exact h6 aN ((hasAcl_config_iff a0 aN).mp ha) bN ((hasAcl_config_iff b bN).mp hb)
+  · intro ai hai bi hbi hn ba hba bb hbb hd
+    rcases h6 ai hai bi hbi with k | k
+    · exact absurd hn k
+    · rcases k ba hba bb hbb with k2 | k2
+      · exact absurd hd k2
+      · exact k2
   · intro bN hb
     exact h7 bN ((hasAcl_config_iff b bN).mp hb)
   · intro r hr r' hr' ht
